@@ -15,7 +15,7 @@ def replay(prop, path):
     if 'deck' in case:
         deck = case['deck']
         rec = deckrun.run_deck({'tid': 1, 'deck': deck, 'opts': case.get('opts', []),
-                                'text': case.get('text')})
+                                'text': case.get('text'), 'real_points': case.get('real_points')})
         verd = deckrun.validate(chk, [rec], {1: deck}, case.get('clauses', 'owner,valid'))
         print('replayed text:\n' + rec['text'])
         print('options:', case.get('opts', []))
